@@ -610,11 +610,11 @@ func main() {
 	}
 	selMax := analyseSelector(need("normalizeArraySelector"))
 	checkRangeBinding(need("lowerRangeBinding"))
-	fmt.Fprintf(&b, "Definition infix_lbp : lbpconsts := mkLbp %s %s %s %s %s %s %s %s %s %s %s %s [%s] %s %s %s %s %s %s %d.\n",
+	fmt.Fprintf(&b, "Definition infix_lbp : lbpconsts := mkLbp %s %s %s %s %s %s %s %s %s %s %s %s [%s] %s %s %s %s %s %s %d %s.\n",
 		qz(lbp.c["SexpInt"]), qz(lbp.c["SexpFloat"]), qz(lbp.c["SexpBool"]), qz(lbp.c["SexpStr"]),
 		qz(lbp.c["SexpArray"]), qz(lbp.c["SexpComma"]), qz(lbp.c["SexpSemicolon"]), qz(lbp.c["SexpComment"]),
 		qz(lbp.c["SexpPair"]), qz(lbp.c["SexpHash"]), qz(lbp.dot), qz(lbp.symDefault),
-		strings.Join(zs, "; "), qz(lbp.zeroVal), qz(lbp.noLed), qs(keys.comma), qs(keys.dot), qz(arrayBp), arrayLed, selMax)
+		strings.Join(zs, "; "), qz(lbp.zeroVal), qz(lbp.noLed), qs(keys.comma), qs(keys.dot), qz(arrayBp), arrayLed, selMax, lbp.other)
 	fc := analyseFor(need("lowerGoFor"), need("lowerRangeFor"))
 	fmt.Fprintf(&b, "\n(* lowerGoFor / lowerRangeFor: semicolons of a three-clause header; guard `len(header) %s assignPos+%d`\n   in front of header[assignPos+%d]; sourceTokens := header[assignPos+%d:] *)\n", fc.guardOp, fc.guardOff, fc.indexOff, fc.sourceOff)
 	fmt.Fprintf(&b, "Definition for_consts : forconsts := mkFor %d %v %d %d %d.\n", fc.nsemi, fc.guardOp == "<=", fc.guardOff, fc.indexOff, fc.sourceOff)
@@ -649,6 +649,7 @@ type lbpInfo struct {
 	zeroVal    int
 	dot        int
 	noLed      int
+	other      string // Gallina option Z: what the function returns for a type without a case
 	symDefault int
 }
 
@@ -763,6 +764,25 @@ func analyseLBP(fd *ast.FuncDecl) lbpInfo {
 	}
 	if !seenSym {
 		die(fd.Pos(), "LeftBindingPower: no symbol case")
+	}
+	// the statement after the type switch: what a type without a case gets
+	last, ok := fd.Body.List[len(fd.Body.List)-1].(*ast.ReturnStmt)
+	if !ok || len(last.Results) != 2 {
+		die(fd.Pos(), "LeftBindingPower: the function does not end in a return")
+	}
+	if src(last.Results[1]) == "nil" {
+		n, ok := intLit(last.Results[0])
+		if !ok {
+			die(last.Pos(), "LeftBindingPower: default power is not a literal")
+		}
+		info.other = fmt.Sprintf("(Some %s)", qz(n))
+	} else if strings.HasPrefix(src(last.Results[1]), "fmt.Errorf(") {
+		info.other = "None"
+	} else {
+		die(last.Pos(), "LeftBindingPower: final return has an unknown shape")
+	}
+	if ts.Body.List[len(ts.Body.List)-1].(*ast.CaseClause).List == nil {
+		die(fd.Pos(), "LeftBindingPower: default case not understood")
 	}
 	for _, t := range []string{"SexpInt", "SexpFloat", "SexpBool", "SexpStr", "SexpArray", "SexpComma", "SexpSemicolon", "SexpComment", "SexpPair", "SexpHash"} {
 		if _, ok := info.c[t]; !ok {
